@@ -30,6 +30,7 @@ type c07Tunnel struct {
 	Ops     []string `json:"ops"`      // c2h | h2c | hostclose ; then End
 	End     string   `json:"end"`      // close | drop | ooo
 	StartMs int      `json:"start_ms"`
+	Stall    bool    `json:"client_stops_reading_until_the_others_are_done,omitempty"` // websocket: its host floods it meanwhile; the other tunnels must not notice
 	SlowPair bool    `json:"slow_pairing,omitempty"` // legacy: RDG_IN_DATA follows RDG_OUT_DATA only after another tunnel has ended (or 150 ms)
 }
 
@@ -59,6 +60,14 @@ func genC07(t *rapid.T, maxTunnels int) c07Case {
 		}
 		c.Tunnels = append(c.Tunnels, tn)
 	}
+	if n >= 2 && rapid.IntRange(0, 3).Draw(t, "stall") == 0 {
+		for i := range c.Tunnels {
+			if c.Tunnels[i].Kind == "ws" && c.Tunnels[i].Setup == "ok" {
+				c.Tunnels[i].Stall = true
+				break
+			}
+		}
+	}
 	return c
 }
 
@@ -69,6 +78,10 @@ func c07Block(i int, dir string, off, n int) []byte {
 	}
 	return b.Bytes()[:n]
 }
+
+var c07Stalled chan struct{} // closed once the stalling tunnel of the running case is stalled (or at once if there is none)
+
+var c07OthersDone chan struct{} // closed when every tunnel of the running case that reads its data has finished
 
 var c07Ended atomic.Int64 // tunnels (of this process) that have run to their end
 
@@ -204,6 +217,30 @@ func runC07Tunnel(i int, tn c07Tunnel, c c07Case, o gwOpts, mkTarget func(user s
 	sentC := append([]byte(nil), tag...)
 	var sentH []byte
 	hostClosed := false
+	if ws, ok := conn.(*gwc.WS); ok && tn.Stall {
+		// this client stops reading; its host keeps writing until the gateway cannot take more; only when every other
+		// tunnel of the case has run to its end does the client read again
+		ws.Pause(true)
+		for len(sentH) < 64<<20 {
+			b := c07Block(i, "<", len(sentH), 32768)
+			host.C.SetWriteDeadline(time.Now().Add(250 * time.Millisecond))
+			n, err := host.C.Write(b)
+			sentH = append(sentH, b[:n]...)
+			if err != nil {
+				break
+			}
+		}
+		host.C.SetWriteDeadline(time.Time{})
+		close(c07Stalled) // the other tunnels of the case start now
+		select {
+		case <-c07OthersDone:
+		case <-time.After(20 * time.Second):
+		}
+		ws.Pause(false)
+		// let the backlog drain before the script goes on (a host that hangs up with megabytes still queued towards the
+		// gateway, and unread bytes of its own, would reset the connection - a harness artefact, not the gateway's doing)
+		conn.WaitBytes(len(sentH), 60*time.Second)
+	}
 	for _, op := range tn.Ops {
 		switch op {
 		case "c2h":
@@ -227,7 +264,11 @@ func runC07Tunnel(i int, tn c07Tunnel, c c07Case, o gwOpts, mkTarget func(user s
 		}
 	}
 	// everything the host wrote must reach this client and nothing else may
-	got, perr, _ := pollDataPayload(conn, len(sentH), 10*time.Second)
+	wait := 10 * time.Second
+	if tn.Stall {
+		wait = 60 * time.Second // megabytes are queued behind the stall
+	}
+	got, perr, _ := pollDataPayload(conn, len(sentH), wait)
 	if perr != nil {
 		return fmt.Sprintf("tunnel %d: malformed packet: %v", i, perr)
 	}
@@ -294,13 +335,39 @@ func runC07(c c07Case, o gwOpts, mkTarget func(user string) gwc.Target) *Violati
 	var wg sync.WaitGroup
 	errs := make([]string, len(c.Tunnels))
 	start := make(chan struct{})
+	c07OthersDone = make(chan struct{})
+	c07Stalled = make(chan struct{})
+	var others atomic.Int64
+	hasStall := false
+	for _, tn := range c.Tunnels {
+		if !tn.Stall {
+			others.Add(1)
+		} else {
+			hasStall = true
+		}
+	}
+	if !hasStall {
+		close(c07Stalled)
+	}
+	if others.Load() == 0 {
+		close(c07OthersDone)
+	}
 	for i, tn := range c.Tunnels {
 		wg.Add(1)
 		go func(i int, tn c07Tunnel) {
 			defer wg.Done()
 			<-start
+			if !tn.Stall {
+				select { // with a stalling tunnel in the case, the others run while it is stalled
+				case <-c07Stalled:
+				case <-time.After(20 * time.Second):
+				}
+			}
 			time.Sleep(time.Duration(tn.StartMs) * time.Millisecond)
 			errs[i] = runC07Tunnel(i, tn, c, o, mkTarget, P, g, from)
+			if !tn.Stall && others.Add(-1) == 0 {
+				close(c07OthersDone)
+			}
 		}(i, tn)
 	}
 	var rogueErr string
